@@ -39,8 +39,8 @@ ApplyStep(W, name, s) ==
     [] name = "allowsId"  -> LET r == Allows(W, "Id", s) IN IF r = OkUnit THEN Ok(s) ELSE r
     [] name = "allowsFf"  -> LET r == Allows(W, "Ff", s) IN IF r = OkUnit THEN Ok(s) ELSE r
     [] name = "lower"     -> Ok(CaseMap(W, s))
-    [] name = "nfc"       -> Ok(NFC(W, s))
-    [] name = "nfkc"      -> Ok(NFKC(W, s))
+    [] name = "nfc"       -> IF W.mode = "facts" /\ ~HasFact(W, s) THEN [err |-> "MissingFact"] ELSE Ok(NFC(W, s))
+    [] name = "nfkc"      -> IF W.mode = "facts" /\ ~HasFact(W, s) THEN [err |-> "MissingFact"] ELSE Ok(NFKC(W, s))
     [] name = "pwspace"   -> Ok(PwSpaces(W, s))
     [] name = "nickspace" -> Ok(NickSpaces(W, s))
     [] name = "bidi"      -> IF DirectionalityOk(W, s) THEN Ok(s) ELSE ErrInvalid
